@@ -164,6 +164,20 @@ fn one_reader_case(sink: &mut Sink, o: &mut Oracle, st: &mut Stats, doc: &[u8], 
     }
     let iter_ans = format!("{} end=1", if its.is_empty() { "-".to_string() } else { its.join(",") });
     sink.case(&format!("iofault iter {fr} 1 {bud} {lim} {it}"), &iter_ans);
+    // without a budget (Options::budget = None) a reader fault surfaces exactly as with the default budget,
+    // which none of these small documents can breach
+    if f.cap.is_none() {
+        let mut nb = opts(None);
+        nb.budget = None;
+        let r = serde_saphyr::from_reader_with_options::<_, IgnoredAny>(mk(), nb.clone());
+        let s0 = match &r { Ok(_) => "ok".to_string(), Err(e) => format!("err {}", err_kind_with(e, iok)) };
+        if s0 != single { o.fail("C10-no-budget-differs", &format!("from_reader_with_options with budget None vs default budget, {}", fault_tok(f)), doc, &s0, &single); }
+        let mut r6 = mk();
+        let i0: Vec<String> = serde_saphyr::read_with_options::<_, IgnoredAny>(&mut r6, nb).take(10_000)
+            .map(|x| match &x { Ok(_) => "ok".to_string(), Err(e) => format!("err:{}", err_kind_with(e, iok)) }).collect();
+        if i0 != its { o.fail("C10-no-budget-differs", &format!("read_with_options with budget None vs default budget, {}", fault_tok(f)), doc, &i0.join(","), &its.join(",")); }
+        sink.count("no_budget.checked");
+    }
     // the garde / validator copies of both families behave like the plain ones
     {
         let sv = serde_saphyr::from_reader_with_options_valid::<_, SkipV>(mk(), opts(f.cap));
@@ -236,7 +250,7 @@ fn corpus(rng: &mut Rng, thorough: bool) -> Vec<Vec<u8>> {
         "a\n...\n", "a\n...\njunk: [\n", "a\n---\n", "--- a\n--- b\n", "[1, 2, 3]\n", "{a: 1, b: [x, y]}\n", "k: é€😀\n", "é: [ü, ö]\n", "- &a x\n- *a\n",
         "a: &m {k: v}\nb: *m\n---\nc: *m\n", "\"quoted\\n\"\n", ">\n folded\n", "|\n lit\n", "a:\n  b:\n    c: d\n", "# comment\n", "---\n...\n", "\n\n", "a: ~\n",
         "\u{feff}a: 1\n", "[a, b", "{a: 1", "a: b: c", "- [\n", "€", "- 😀\n- ~\n---\n~\n",
-        "%YAML 1.2\n---\na: 1\n", "%TAG ! tag:x,2000:\n--- !t b\n", "a\n...\n%YAML 1.2\n---\nb\n", "%YAML", "~\n...\n%x y\n---\n~\n"] {
+        "%YAML 1.2\n---\na: 1\n", "%TAG ! tag:x,2000:\n--- !t b\n", "a\n...\n%YAML 1.2\n---\nb\n", "%YAML", "~\n...\n%x y\n---\n~\n", "---\nkey: value\n...\n# after the end marker\n", "a\n...\n\n\n# c\n# d\n"] {
         v.push(s.as_bytes().to_vec());
     }
     let n = if thorough { 300 } else { 40 };
